@@ -108,6 +108,7 @@ func (e *Engine) VerifyFuncCase(key string, targs []string, cf *CaseFix) (rep *F
 		}
 	}
 	st := &State{pc: "true", vars: map[types.Object]Val{}, heap: map[string]string{}, epoch: 0}
+	c.scanBoxed(fi.Pkg.TypesInfo, fi.Decl.Body)
 	c.declConst("alloc!0", "Int")
 	c.facts = append(c.facts, "(> alloc!0 0)")
 	st.alloc = "alloc!0"
@@ -129,7 +130,7 @@ func (e *Engine) VerifyFuncCase(key string, targs []string, cf *CaseFix) (rep *F
 			}
 		}
 		c.entryPtrFacts(v, st)
-		st.vars[obj] = v
+		c.declareVar(st, obj, v)
 		if name != "" && name != "_" {
 			c.paramVals[name] = v
 		}
@@ -279,6 +280,15 @@ func (e *Engine) VerifyFuncCase(key string, targs []string, cf *CaseFix) (rep *F
 			if o := c.oblige(exit, "post", en.Label, g.T, en.Src, en.Try, fi.Decl); o != nil {
 				o.Cases = cases
 			}
+			// cover: a clause `A ==> B` must not hold merely because no verified path reaches
+			// the exit with A (e.g. all such paths were pruned as out of subset)
+			if be, ok := unparen(en.Expr).(*ast.BinaryExpr); ok && be.Op == tokImplies && !en.Try && cf == nil {
+				a := c.eval(postEnv, be.X)
+				if o := c.oblige(exit, "vacuity", "cover:"+en.Label, "false", "some verified path reaches the exit with: "+en.Src, false, fi.Decl); o != nil {
+					o.MustFail = true
+					o.PC = and(exit.pc, a.T)
+				}
+			}
 		}
 		if ct.AssignsGiven {
 			c.checkFrame(exit, ct, postEnv)
@@ -291,7 +301,21 @@ func (e *Engine) VerifyFuncCase(key string, targs []string, cf *CaseFix) (rep *F
 // entryPtrFacts: pointers passed in were allocated before the call.
 func (c *FnCtx) entryPtrFacts(v Val, st *State) {
 	t := c.subst(v.Typ)
-	switch t.Underlying().(type) {
+	switch u := t.Underlying().(type) {
+	case *types.Basic:
+		if u.Kind() == types.UnsafePointer {
+			c.facts = append(c.facts, app("<", v.T, "alloc!0"))
+		}
+	case *types.Struct:
+		if isOpaqueStruct(t) {
+			return
+		}
+		for i := 0; i < u.NumFields(); i++ {
+			f := u.Field(i)
+			c.entryPtrFacts(Val{T: app(c.fieldAcc(t, f.Name()), v.T), Typ: f.Type()}, st)
+		}
+	case *types.Interface:
+		c.facts = append(c.facts, app("<", app("if_ptr", v.T), "alloc!0"))
 	case *types.Pointer, *types.Map, *types.Chan:
 		c.facts = append(c.facts, app("<", v.T, "alloc!0"))
 	case *types.Slice:
